@@ -143,7 +143,8 @@ func (CJv[G]) MarshalJSON() ([]byte, error)  { return czMJv, nil }
 type czMarshalerIface interface{ MarshalJSON() ([]byte, error) }
 type czNamedAny[G any] interface{}
 
-// struct-kind key with UnmarshalText only (finding: segmentio writes the empty map, encoding/json refuses the type)
+// struct-kind key with UnmarshalText only (repaired by 0a9d40c: like encoding/json the map type itself is unsupported for
+// encoding, also when the map is empty or nil)
 type KUp[G any] struct{ X int }
 
 func (*KUp[G]) UnmarshalText([]byte) error { return nil }
